@@ -131,6 +131,12 @@ theorem sparse_roundtrip (d : Bytes) (hne : d ≠ []) (h32 : d.length < 2 ^ 32) 
     (he : d.length ≤ expected) : sparseDecompress (sparseCompress d) expected = some d :=
   Codec.sparse_roundtrip d hne h32 expected he
 
+/-- SPARSE DECODER IS BOUNDED BY THE CALLER: whatever the stream declares, a returned buffer is never longer than the
+    size the caller passed -/
+theorem sparse_output_bounded (data : Bytes) (expected : Nat) (out : Bytes)
+    (h : sparseDecompress data expected = some out) : out.length ≤ expected :=
+  Codec.sparse_output_bounded data expected out h
+
 /-- the excluded input: the bare codec does not invert the empty input (4 header bytes < the decoder's minimum of 5) … -/
 theorem sparse_empty_bare : ∀ n, sparseDecompress (sparseCompress []) n = none := Codec.sparse_empty.2
 
